@@ -189,7 +189,7 @@ func (g *Gen) allocComp() string {
 func (g *Gen) ghostComp(gv *GhostVar) (string, Sort, Sort) {
 	name := "G|" + gv.Name
 	if strings.HasPrefix(gv.Type, "map:") {
-		ps := strings.Split(gv.Type, ":")
+		ps := strings.SplitN(gv.Type, ":", 3)
 		k, v := g.specSort(ps[1]), g.specSort(ps[2])
 		g.regComp(name, arrSort(string(k), string(v)))
 		return name, k, v
@@ -228,6 +228,9 @@ func (g *Gen) specSort(t string) Sort {
 	if strings.HasPrefix(t, "*") {
 		return SRef
 	}
+	if strings.HasPrefix(t, "(") {
+		return Sort(t) // a raw SMT sort
+	}
 	if strings.HasPrefix(t, "array:") {
 		return Sort(arrSort("Int", string(g.specSort(t[len("array:"):]))))
 	}
@@ -237,7 +240,14 @@ func (g *Gen) specSort(t string) Sort {
 func (g *Gen) subRef(T types.Type, f string, r string) string {
 	fn := qsym("sub:" + typeName(T) + "." + f)
 	g.S.declareFun(fn, []string{"Ref"}, "Ref")
-	return sx(fn, r)
+	t := sx(fn, r)
+	// an embedded sub-object is allocated exactly when its enclosing object is (so it never aliases a fresh object)
+	if !strings.Contains(r, "|q!") && !strings.Contains(r, "r!this") && !g.S.declared["suballoc:"+t] {
+		g.S.declared["suballoc:"+t] = true
+		al := g.initSym(g.allocComp())
+		g.S.assert(eq(sel(al, t), sel(al, r)))
+	}
+	return t
 }
 func (g *Gen) elemRef(T types.Type, arr, idx string) string {
 	fn := qsym("elemref:" + typeName(T))
@@ -377,6 +387,10 @@ func (g *Gen) zeroOfSort(so Sort) string {
 		return "(_ +zero 11 53)"
 	}
 	if strings.HasPrefix(string(so), "(Array") {
+		switch vs := Sort(arrayValueSort(string(so))); vs {
+		case SInt, SBool, SRef, SStr, SIface:
+			return fmt.Sprintf("((as const %s) %s)", so, g.zeroOfSort(vs))
+		}
 		n := g.S.freshName("zeroarr")
 		g.S.declare(n, string(so))
 		return n
